@@ -12,7 +12,7 @@
    420.9687 are rounded: the value there is 2.7e-10 per coordinate; the bound clause holds in every dimension, see
    C15_schwefel_every_dimension), EqualityConstr n <= 10^6 (isclose slack 1e-9). *)
 From Coq Require Import Reals List Lia Lra.
-From Artap Require Import Model.Bench Proofs.BenchLemmas Proofs.BenchProofsA Proofs.BenchProofsB Proofs.BenchProofsC Proofs.BenchProofsD.
+From Artap Require Import Model.Bench Proofs.BenchLemmas Proofs.BenchProofsA Proofs.BenchProofsB Proofs.BenchProofsC Proofs.BenchProofsD Proofs.BenchProofsE.
 Import ListNotations.
 Local Open Scope R_scope.
 
@@ -85,6 +85,16 @@ Print Assumptions C15_well_defined.
 Theorem C15_schwefel_every_dimension : forall x, in_box (-500) 500 x -> 0 <= schwefel x.
 Proof. exact schwefel_lower. Qed.
 Print Assumptions C15_schwefel_every_dimension.
+
+(* Perm and "one finite float" (open finding F10): on the box [-n, n]^n the real value of Perm is representable in
+   binary64 (at most the largest finite double, (2^53 - 1) 2^971) in every dimension n <= 80, and is not at the corner
+   (81, .., 81) of the 81-dimensional box: beyond dimension 80 no float implementation can return a finite cost
+   everywhere on the box *)
+Theorem C15_perm_binary64_range :
+  (forall n x, (1 <= n <= 80)%nat -> in_boxes (b_box perm_b n) x -> 0 <= perm x <= max_binary64) /\
+  (exists x, in_boxes (b_box perm_b 81) x /\ max_binary64 < perm x).
+Proof. exact (conj perm_representable perm_exceeds_81). Qed.
+Print Assumptions C15_perm_binary64_range.
 
 (* the formulas / declarations before the fixes F4, F3, F5 violate the clauses (refutations of the pre-fix code):
    the parity factor of ModifiedEasom in dimension 1, EqualityConstr without its constraint at (1,1), and the origin
